@@ -309,6 +309,34 @@ def r6_no_truthiness_rewrite(chk: Check) -> None:
                     chk.violation("C06.R6", fn, construct,
                                   f"{bad[1]}: a generated `0`, `False`, `0.0` or `[]` is sent as something else (e.g. `limit=` instead of `limit=0`), so the value recovered from the wire is not the generated one",
                                   fn.loc(bad[0]))
+    # the style serializers (`@conversion` functions of specs/openapi/serialization.py) rewrite `item[name]` in place: a
+    # branch taken on the TRUTHINESS of the generated value sends 0 / False / 0.0 as if there were no value
+    ser = P.module("specs/openapi/serialization.py")
+    for fn in ser.functions.values():
+        if isinstance(fn.node, ast.Lambda):
+            continue
+        vals = {name_of(b, "v") for n_, b in pfind("$v = $i[$k]", fn.node) if isinstance(b["i"], ast.Name) and b["i"].id in params_of(fn.node)}
+        vals.discard(None)
+        if not vals:
+            continue
+        for t in walk_body(fn.node):
+            if not isinstance(t, (ast.If, ast.IfExp)):
+                continue
+            lits = literals_of(t.test, True) + literals_of(t.test, False)
+            hit = [k for k, _v in lits if k in vals]
+            if not hit:
+                continue
+            n += 1
+            stores = [x for x in ast.walk(t) if isinstance(x, ast.Assign) and any(isinstance(tg, ast.Subscript) and isinstance(tg.value, ast.Name) and tg.value.id in params_of(fn.node) for tg in x.targets)]
+            construct = f"{fn.name}: the generated value is rewritten only under an explicit comparison"
+            # `if v or isinstance(v, (int, float))` / `if v is not None` are explicit; a bare `if v:` is not
+            bare = isinstance(t.test, ast.Name) or (isinstance(t.test, ast.UnaryOp) and isinstance(t.test.op, ast.Not) and isinstance(t.test.operand, ast.Name))
+            if stores and bare:
+                chk.violation("C06.R6", fn, construct,
+                              f"`if {unparse(t.test, 30)}:` decides on the truthiness of the generated value `{hit[0]}`: 0, False and 0.0 take the 'no value' arm, e.g. the path segment becomes empty (`/api/counts/` instead of `/api/counts/.0`)",
+                              fn.loc(t))
+            else:
+                chk.ok("C06.R6", fn, construct, "", fn.loc(t))
     if n < 1:
         chk.undecided("C06.R6", "<discovery>", f"walks={n}", "no walk over the case's containers found in the transports")
 
